@@ -129,6 +129,7 @@ func runNotif(seed int64, histories, steps int, out *Emitter) {
 		}
 		var log []sent
 		qr := rand.New(rand.NewSource(seed*7919 + int64(hi) + 31))
+		var pgr *pager
 		for i := 0; i < steps; i++ {
 			if restartsOn && qr.Intn(150) == 0 {
 				// the network restarts from its own exported genesis (and runs its first block)
@@ -149,6 +150,15 @@ func runNotif(seed int64, histories, steps int, out *Emitter) {
 					out.Emit(map[string]interface{}{"mod": "panic", "where": "block", "h": c.H, "panic": fmt.Sprint(p)})
 					break
 				}
+			}
+			if queriesOn && qr.Intn(4) == 0 { // a query record: the query server answers on the current state
+				if pgr == nil {
+					pgr = newPager(qr)
+				}
+				qst := c.notifAbs()
+				q, resp, kind := notifQueryStep(c, qr, pgr, actors)
+				out.Emit(map[string]interface{}{"mod": "query", "sub": "notif", "hist": hi, "i": i, "h": c.H, "state": qst, "q": q, "resp": resp})
+				out.Count("query.notif."+kind, resp != "err")
 			}
 			var msg sdk.Msg
 			var op map[string]interface{}
